@@ -470,6 +470,15 @@ def bigkernel_cases(thorough):
     for nbits in (64, 128, 256, 1024) + ((512, 4096, 65536) if thorough else ()):
         for mask in ([0], [nbits - 1], sorted({0, 1, 70 % nbits, nbits - 1}), list(range(nbits)) if nbits <= 256 else list(range(0, nbits, 7))):
             cases.append([nbits, mask])
+    # the set form on the same kernels: every mask above that fits the 1024 bits psutil's static cpu_set_t can name, plus lists
+    # with few entries and high CPU numbers / repeated entries, requested while the kernel holds another mask
+    for nbits, mask in list(cases):
+        if nbits <= 1024:
+            cases.append([nbits, mask, "set"])
+    for nbits in (64, 128, 256, 1024):
+        for mask in ([nbits // 2], [nbits - 2, nbits - 1], [0, nbits - 1], [3, 3, nbits - 2, nbits - 2], [nbits - 1, 0, 63, 64 % nbits]):
+            cases.append([nbits, mask, "set"])
+    # (left out: a CPU number >= 1024 on a 4096-CPU kernel -- psutil's set side uses a static 1024-bit cpu_set_t)
     return cases
 
 
@@ -480,7 +489,11 @@ def bigkernel_main():
     path = os.environ["VF_AFFINITY_FILE"]
     me = psutil.Process()
     out = []
-    for nbits, mask in cases:
+    for case in cases:
+        nbits, mask = case[0], case[1]
+        if len(case) > 2:
+            out.append(_bigkernel_set(me, path, nbits, mask))
+            continue
         with open(path, "w") as f:
             f.write("%d %s\n" % (nbits, " ".join(map(str, mask))))
         bad = []
@@ -491,6 +504,28 @@ def bigkernel_main():
         out.append(bad)
     os.unlink(path)
     print("@@RESULT@@" + json.dumps(out) + "@@RESULT@@")
+
+
+def _kernel_mask(path):
+    with open(path) as f:
+        return sorted(int(x) for x in f.read().split()[1:])
+
+
+def _bigkernel_set(me, path, nbits, mask):
+    """one set request against the shim kernel with nbits possible CPUs (all of them eligible): from each of two other masks"""
+    bad = []
+    want = sorted(set(mask))
+    for start in (list(range(nbits)), [c for c in (1, nbits - 3) if c not in want] or [0]):
+        with open(path, "w") as f:
+            f.write("%d %s\n" % (nbits, " ".join(map(str, start))))
+        out = outcome(me.cpu_affinity, list(mask))
+        kern = _kernel_mask(path)
+        got = outcome(me.cpu_affinity)
+        if out[0] != "ok" or kern != want or got != ("ok", want):
+            bad.append(("bigkernel:cpu_affinity-set", "kernel with %d possible CPUs holding %s: cpu_affinity(%s) -> %s; kernel now %s, "
+                        "cpu_affinity() -> %s" % (nbits, _short(start), _short(list(mask)), _short(freeze(out)), _short(kern), _short(freeze(got)))))
+            break
+    return bad
 
 
 def _short(v):
@@ -616,6 +651,63 @@ def sim_oneshot(arg):
     return bad
 
 
+HIST_CPUSETS = [("0-3", [0, 1, 2, 3]), ("2-5", [2, 3, 4, 5]), ("0,2,5", [0, 2, 5]), ("6-7", [6, 7])]
+HIST_REQS = [(), (0,), (3,), (4,), (7,), (2, 5), (8,)]
+
+
+def sim_history(arg):
+    """several requests through ONE Process object while the kernel moves the task between cpusets: before every request the
+    task is attached to a cpuset (its mask and Cpus_allowed_list become that cpuset's CPUs, as cpuset attach does); every
+    request is judged against the eligible set the kernel has AT THAT MOMENT, whatever the object saw earlier"""
+    import psutil
+    ncpu = 8
+    w = World(ncpus=ncpu)
+    w.spawn(1, ppid=0, comm=b"init", start=1)
+    w.spawn(w.mypid, ppid=1, comm=b"caller", start=50)
+    p = w.spawn(4700, ppid=w.mypid, comm=b"subj", start=900)
+    q = w.spawn(4701, ppid=w.mypid, comm=b"sib", start=901)
+    elig = [list(range(ncpu))]
+    w.eligible_cpus = lambda proc: list(elig[0]) if proc is p else list(range(ncpu))
+    use_world(w)
+    pr = psutil.Process(4700)
+    bad = []
+    for i, (cs, req) in enumerate(arg):
+        shape, cpus = HIST_CPUSETS[cs]
+        p.cpus_allowed_list, p.affinity, elig[0] = shape, set(cpus), list(cpus)
+        out = outcome(pr.cpu_affinity, list(req))
+        want = sorted(set(req) & set(cpus)) if req else sorted(cpus)
+        valid = bool(want) and all(0 <= c < ncpu for c in req)
+        step = "step %d of %r (cpusets %r)" % (i + 1, [list(r) for _, r in arg], [HIST_CPUSETS[c][0] for c, _ in arg])
+        if valid:
+            if out[0] != "ok" or sorted(p.affinity or []) != want:
+                bad.append(("sim:history:affinity:%s" % ("empty-list" if not req else "x"),
+                            "%s: task now in cpuset %r, cpu_affinity(%r) -> %r; kernel affinity %r, wanted %r"
+                            % (step, shape, list(req), freeze(out), sorted(p.affinity or []), want)))
+        else:
+            if not (out[0] == "exc" and out[1] == "ValueError"):
+                bad.append(("sim:history:affinity:invalid-not-ValueError", "%s: task now in cpuset %r, cpu_affinity(%r) -> %r"
+                            % (step, shape, list(req), freeze(out))))
+            if sorted(p.affinity or []) != sorted(cpus):
+                bad.append(("sim:history:affinity:invalid-changed", "%s: %r -> %r" % (step, sorted(cpus), sorted(p.affinity or []))))
+        g = outcome(pr.cpu_affinity)
+        if g != ("ok", sorted(p.affinity or [])):
+            bad.append(("sim:history:get", "%s: kernel affinity %r, cpu_affinity() -> %r" % (step, sorted(p.affinity or []), freeze(g))))
+        if bad:
+            break
+    if q.affinity is not None or q.nice != 0:
+        bad.append(("sim:history:sibling-changed", "x"))
+    return bad
+
+
+def sim_history_cases(thorough):
+    reqs = HIST_REQS if thorough else [r for r in HIST_REQS if r not in ((3,), (7,))]      # (quick tier: run time)
+    steps = [(c, r) for c in range(len(HIST_CPUSETS)) for r in reqs]
+    cases = [tuple(h) for h in itertools.product(steps, repeat=2)]
+    if thorough:
+        cases += [tuple(h) for h in itertools.product(steps, repeat=3)]
+    return cases
+
+
 def sim_cases(thorough):
     cases = []
     shapes = [("0-3", 4, [0, 1, 2, 3]), ("0,2", 4, [0, 2]), ("0-1,4-5", 8, [0, 1, 4, 5]), ("3", 4, [3]), ("0-1,3", 4, [0, 1, 3]),
@@ -674,9 +766,13 @@ def run(ctx):
     for c, bad in zip(oc, ctx.pmap(sim_oneshot, oc)):
         for cause, msg in bad:
             viols.append({"cause": cause, "msg": msg, "case": {"oneshot": c}})
-    cov = {"oneshot_sequences": len(oc), "get_cases": len(gc_), "bigkernel_cases": len(bk),
-           "evaluations": nlive + len(sc) + len(rc) + len(oc) + len(gc_) + len(bk),
-           "distinct_nontrivial": nlive + len(sc) + len(rc) - 4 + len(gc_) + len(bk),
+    hc = sim_history_cases(ctx.thorough)
+    for c, bad in zip(hc, ctx.pmap(sim_history, hc)):
+        for cause, msg in bad:
+            viols.append({"cause": cause, "msg": msg, "case": {"history": [[cs, list(r)] for cs, r in c]}})
+    cov = {"history_cases": len(hc), "oneshot_sequences": len(oc), "get_cases": len(gc_), "bigkernel_cases": len(bk),
+           "evaluations": nlive + len(sc) + len(rc) + len(oc) + len(gc_) + len(bk) + len(hc),
+           "distinct_nontrivial": nlive + len(sc) + len(rc) - 4 + len(gc_) + len(bk) + len(hc),
            "rule": "live: one evaluation = one set request on a sacrificial child on the real kernel, read back through psutil and the OS, "
                    "sibling compared; sim: one evaluation = one (Cpus_allowed_list shape, request) or (syscall, errno) pair; requests are "
                    "distinct by construction (4 repeated nice values excluded)",
@@ -699,6 +795,8 @@ def replay(ctx, case):
         bad = {"fork-self": live_self_after_fork, "rlimit-names": live_rlimit_names}.get(case["special"], debug_badstderr)()
     elif "bigkernel" in case:
         bad = bigkernel([case["bigkernel"]])[0]
+    elif "history" in case:
+        bad = sim_history(tuple((cs, tuple(r)) for cs, r in case["history"]))
     elif "refusal" in case:
         bad = sim_refusal(tuple(case["refusal"]))
     else:
